@@ -72,16 +72,16 @@ const (
 	audioLevelURI  = "urn:ietf:params:rtp-hdrext:ssrc-audio-level"
 )
 
-func sizes(tier string) (big, medium, short, epochs int) {
+func sizes(tier string) (big, medium, short, epochs, storm, rounds int) {
 	if tier == "thorough" {
-		return 480, 2400, 600, 40 // 24 000 porcupine histories
+		return 1000, 4000, 1000, 40, 1000, 40 // 40 000 porcupine histories, 40 000 wrap storms
 	}
-	return 40, 200, 80, 25 // 2 000 porcupine histories
+	return 40, 200, 80, 25, 48, 30 // 2 000 porcupine histories, 1 440 wrap storms
 }
 
 func cases(tier string) int {
-	b, m, s, _ := sizes(tier)
-	return b + m + s
+	b, m, s, _, w, _ := sizes(tier)
+	return b + m + s + w
 }
 
 func TestCheck(t *testing.T) {
@@ -89,14 +89,16 @@ func TestCheck(t *testing.T) {
 }
 
 func run(c *vf.Case) {
-	b, m, _, ep := sizes(c.Tier)
+	b, m, s, ep, _, rounds := sizes(c.Tier)
 	switch {
 	case c.Idx < b:
 		runBig(c)
 	case c.Idx < b+m:
 		runMedium(c)
-	default:
+	case c.Idx < b+m+s:
 		runShort(c, ep)
+	default:
+		runStorm(c, rounds)
 	}
 }
 
@@ -160,6 +162,107 @@ type env struct {
 	vsig  map[string]int
 
 	gateYields, holds, wireChecks, compared atomic.Int64
+
+	// quiescent fast-forward: an extra negotiated stream of the same instance whose gate
+	// only checks that successive numbers are consecutive (main goroutine only)
+	ff       *ffGate
+	ffW      interceptor.RTPWriter
+	ffInfo   *interceptor.StreamInfo
+	ffHdr    rtp.Header
+	segments [][]rec // monitored histories separated by fast-forwards; each is decided on its own
+	lastNum  uint16  // number of the latest quiescent monitored write
+	lastOK   bool
+}
+
+// ffGate is the downstream writer of the fast-forward stream.
+type ffGate struct {
+	id    uint8
+	n     int64
+	last  uint16
+	have  bool
+	bad   string
+	nbad  int
+	first uint16
+}
+
+func (g *ffGate) Write(h *rtp.Header, _ []byte, _ interceptor.Attributes) (int, error) {
+	g.n++
+	var b []byte
+	if h != nil {
+		b = h.GetExtension(g.id)
+	}
+	if len(b) != 2 {
+		g.nbad++
+		if g.bad == "" {
+			g.bad = fmt.Sprintf("ext: quiescent write %d left with header %s (no 2-byte element at id %d)", g.n, hdrString(h), g.id)
+		}
+		g.have = false
+		return 0, nil
+	}
+	v := binary.BigEndian.Uint16(b)
+	if g.have && v != g.last+1 {
+		g.nbad++
+		if g.bad == "" {
+			g.bad = fmt.Sprintf("seq: two successive quiescent writes (nothing else in flight) got %d then %d, want %d", g.last, v, g.last+1)
+		}
+	}
+	g.last, g.have = v, true
+	return 12, nil
+}
+
+// fastForward performs n quiescent, un-recorded writes on the fast-forward stream. Only
+// "each number is the previous one plus one" is checked; the monitored history that
+// follows is decided as a run of its own (the statement does not fix where a run starts).
+func (e *env) fastForward(n int) {
+	g := e.ff
+	g.have, g.last = e.lastOK, e.lastNum
+	before := g.n
+	for i := 0; i < n; i++ {
+		h := &e.ffHdr
+		h.Extension, h.ExtensionProfile, h.Extensions = false, 0, h.Extensions[:0]
+		h.SequenceNumber++
+		if _, err := e.ffW.Write(h, nil, nil); err != nil {
+			e.viol("forward/valid-packet-rejected", "quiescent write with a plain header on a negotiated stream (id %d) was refused: %v", g.id, err)
+			break
+		}
+	}
+	if g.n-before != int64(n) {
+		e.viol("forward/dropped-silently", "%d quiescent writes on a negotiated stream, %d reached the downstream writer", n, g.n-before)
+	}
+	if g.bad != "" {
+		if strings.HasPrefix(g.bad, "ext:") {
+			e.viol("ext/missing", "%s", g.bad)
+		} else {
+			e.viol("run/sequential-not-consecutive", "%s (%d such steps in %d quiescent writes)", g.bad, g.nbad, n)
+		}
+		g.bad, g.nbad = "", 0
+	}
+	e.lastOK, e.lastNum = g.have, g.last
+}
+
+// cut closes the current monitored segment.
+func (e *env) cut(ws []*writer) {
+	if seg := gather(ws); len(seg) > 0 {
+		e.segments = append(e.segments, seg)
+	}
+	for _, w := range ws {
+		w.recs = nil
+	}
+}
+
+// seek brings the instance (quiescent) to the point where the next number is target,
+// then starts a new monitored segment.
+func (e *env) seek(ws []*writer, target uint16) bool {
+	seq := ws[len(ws)-1]
+	for try := 0; try < 20 && !e.lastOK; try++ {
+		e.sequential(seq, 1)
+	}
+	if !e.lastOK {
+		return false
+	}
+	e.cut(ws)
+	e.fastForward(int(target - (e.lastNum + 1)))
+	return e.lastOK
 }
 
 func (e *env) viol(sig, format string, args ...any) {
@@ -724,6 +827,10 @@ func newEnv(c *vf.Case, r *vf.Rand, o opts) (*env, []*writer, interceptor.Interc
 		}
 		e.streams = append(e.streams, st)
 	}
+	e.ff = &ffGate{id: uint8(r.Range(1, 14))}
+	e.ffInfo = &interceptor.StreamInfo{ID: "ff", SSRC: r.U32(), RTPHeaderExtensions: []interceptor.RTPHeaderExtension{{URI: transportCCURI, ID: int(e.ff.id)}}}
+	e.ffW = icpt.BindLocalStream(e.ffInfo, e.ff)
+	e.ffHdr = rtp.Header{Version: 2, PayloadType: 111, SSRC: e.ffInfo.SSRC}
 	var negs, nns []*stream
 	for _, st := range e.streams {
 		if st.negotiated {
@@ -932,14 +1039,17 @@ func buildTmpl(r *vf.Rand, st *stream, reject, plain bool) tmpl {
 // negotiated streams (plus PRNG-chosen extra writes on non-negotiated ones).
 func (e *env) epoch(ws []*writer, quota []int) {
 	var wg sync.WaitGroup
-	start := make(chan struct{})
+	var ready, goFlag atomic.Int32
 	e.running.Store(int64(len(ws)))
 	for i, w := range ws {
 		wg.Add(1)
 		go func(w *writer, n int) {
 			defer wg.Done()
 			defer e.running.Add(-1)
-			<-start
+			ready.Add(1)
+			for goFlag.Load() == 0 { // spin barrier: the first writes really start together
+				runtime.Gosched()
+			}
 			for n > 0 {
 				if w.op(e, false) {
 					n--
@@ -947,8 +1057,12 @@ func (e *env) epoch(ws []*writer, quota []int) {
 			}
 		}(w, quota[i])
 	}
-	close(start)
+	for int(ready.Load()) < len(ws) {
+		runtime.Gosched()
+	}
+	goFlag.Store(1)
 	wg.Wait()
+	e.lastOK = false
 }
 
 // sequential performs n negotiated writes from the calling goroutine (quiescent phase).
@@ -957,8 +1071,38 @@ func (e *env) sequential(w *writer, n int) {
 	for n > 0 {
 		if w.op(e, true) {
 			n--
+			last := &w.recs[len(w.recs)-1]
+			e.lastOK, e.lastNum = last.flag == fFwd, last.num
 		}
 	}
+}
+
+// burst releases the writers from a spin barrier so that their first prepared writes
+// really start together; the writes were drawn (and their headers cloned) beforehand.
+func (e *env) burst(ws []*writer, preps [][]*prepared) {
+	var wg sync.WaitGroup
+	var ready, goFlag atomic.Int32
+	e.running.Store(int64(len(ws)))
+	for i, w := range ws {
+		wg.Add(1)
+		go func(w *writer, ps []*prepared) {
+			defer wg.Done()
+			defer e.running.Add(-1)
+			ready.Add(1)
+			for goFlag.Load() == 0 {
+				runtime.Gosched()
+			}
+			for _, p := range ps {
+				w.exec(e, p)
+			}
+		}(w, preps[i])
+	}
+	for int(ready.Load()) < len(ws) {
+		runtime.Gosched()
+	}
+	goFlag.Store(1)
+	wg.Wait()
+	e.lastOK = false
 }
 
 func split(r *vf.Rand, total, parts int) []int {
@@ -1011,6 +1155,7 @@ type summary struct {
 	maxWindow    int
 	switches     int
 	start        int // start value of the run (informational)
+	unused       int // places of the run no forwarded write got (allowed: <= rejected writes)
 	fp           uint64
 	decided      bool
 }
@@ -1231,6 +1376,7 @@ func analyze(e *env, recs []rec) summary {
 		}
 		// consistent
 		sm.decided = true
+		sm.unused = maxk + 1 - n
 		sm.start = int(s)
 		sm.wraps = (maxk + int(s)) / 65536
 		h := vf.NewHash()
@@ -1339,15 +1485,46 @@ func checkPorcupine(e *env, hist []rec) {
 // ---------------------------------------------------------------------------------
 // case kinds
 
-func (e *env) finish(kind string, ws []*writer, recs []rec, icpt interceptor.Interceptor, needWrap bool, extra map[string]any) {
+func (e *env) finish(kind string, ws []*writer, icpt interceptor.Interceptor, needWrap bool, extra map[string]any) {
 	c := e.c
 	for _, st := range e.streams {
 		icpt.UnbindLocalStream(st.info)
 	}
+	icpt.UnbindLocalStream(e.ffInfo)
 	if err := icpt.Close(); err != nil {
 		e.viol("setup/close", "Close: %v", err)
 	}
-	sm := analyze(e, recs)
+	e.cut(ws)
+	var sm summary
+	sm.decided = true
+	nontrivial := false
+	fph := vf.NewHash()
+	for _, seg := range e.segments {
+		s1 := analyze(e, seg)
+		sm.fwd += s1.fwd
+		sm.rej += s1.rej
+		sm.nn += s1.nn
+		sm.wraps += s1.wraps
+		sm.overlapping += s1.overlapping
+		sm.switches += s1.switches
+		sm.unused += s1.unused
+		sm.maxWindow = max(sm.maxWindow, s1.maxWindow)
+		sm.decided = sm.decided && (s1.decided || s1.fwd == 0)
+		c.Max("max_packets_in_one_run", int64(s1.fwd))
+		if len(e.segments) == 1 {
+			sm.start = s1.start
+		}
+		fph.U64(s1.fp)
+		if s1.decided && s1.switches >= 2 && s1.overlapping >= 1 && (!needWrap || s1.wraps >= 1) {
+			nontrivial = true
+			if needWrap {
+				c.Add("wraps_crossed_by_overlapping_writes", int64(s1.wraps))
+			}
+		}
+	}
+	sm.fp = fph.Sum()
+	c.Add("monitored_runs_decided_separately", int64(len(e.segments)))
+	c.Add("quiescent_fast_forward_writes_checked_consecutive", e.ff.n)
 	for _, v := range e.viols {
 		c.Violation(v.sig, "[%s] %s", kind, v.detail)
 	}
@@ -1355,6 +1532,7 @@ func (e *env) finish(kind string, ws []*writer, recs []rec, icpt interceptor.Int
 	c.Add("packets_negotiated_forwarded_with_number", int64(sm.fwd))
 	c.Add("packets_non_negotiated_passed_through", int64(sm.nn))
 	c.Add("writes_rejected_or_without_number", int64(sm.rej))
+	c.Add("numbers_consumed_by_rejected_writes", int64(sm.unused))
 	c.Add("packets_compared_at_gate", e.compared.Load())
 	c.Add("wire_level_extension_checks", e.wireChecks.Load())
 	c.Add("wraps_observed", int64(sm.wraps))
@@ -1367,7 +1545,6 @@ func (e *env) finish(kind string, ws []*writer, recs []rec, icpt interceptor.Int
 	}
 	c.Max("max_concurrent_window", int64(sm.maxWindow))
 	c.Max("max_writers", int64(len(ws)-1))
-	c.Max("max_packets_in_one_run", int64(sm.fwd))
 	var kinds [nKinds]int64
 	for _, w := range ws {
 		for k, v := range w.kinds {
@@ -1393,7 +1570,7 @@ func (e *env) finish(kind string, ws []*writer, recs []rec, icpt interceptor.Int
 	if len(ids) > 1 {
 		c.Add("runs_with_different_ids_per_stream", 1)
 	}
-	if sm.decided && sm.switches >= 2 && sm.overlapping >= 1 && (!needWrap || sm.wraps >= 1) {
+	if nontrivial {
 		c.Nontrivial(sm.fp)
 	}
 	if c.WantSample() {
@@ -1406,7 +1583,7 @@ func (e *env) finish(kind string, ws []*writer, recs []rec, icpt interceptor.Int
 			}
 		}
 		m := map[string]any{"kind": kind, "streams": ss, "writers": len(ws) - 1, "forwarded_with_number": sm.fwd,
-			"non_negotiated": sm.nn, "rejected": sm.rej, "wraps": sm.wraps, "run_start_value": sm.start,
+			"non_negotiated": sm.nn, "rejected": sm.rej, "wraps": sm.wraps, "monitored_runs": len(e.segments),
 			"overlapping_writes": sm.overlapping, "goroutine_switches_in_number_order": sm.switches,
 			"max_window": sm.maxWindow, "gomaxprocs": runtime.GOMAXPROCS(0)}
 		for k, v := range extra {
@@ -1469,7 +1646,7 @@ func runBig(c *vf.Case) {
 	}
 	e.epoch(ws[:o.nWriters], quota)
 	e.sequential(seq, r.Range(1, 3))
-	e.finish("big", ws, gather(ws), icpt, true, map[string]any{"target_packets": total})
+	e.finish("big", ws, icpt, true, map[string]any{"target_packets": total})
 }
 
 // runMedium: 200..6000 packets with everything switched on.
@@ -1499,7 +1676,7 @@ func runMedium(c *vf.Case) {
 			e.sequential(seq, r.Range(1, 20))
 		}
 	}
-	e.finish("medium", ws, gather(ws), icpt, false, nil)
+	e.finish("medium", ws, icpt, false, nil)
 }
 
 // runShort: one instance, many short concurrent histories (<= 8 goroutines x 40 writes),
@@ -1519,20 +1696,11 @@ func runShort(c *vf.Case, epochs int) {
 	e.wireEvery = 1
 	setYields(e, r, false)
 	seq := ws[len(ws)-1]
-	wrapAt := -1
-	if r.Chance(0.25) {
-		wrapAt = r.Intn(epochs)
-	}
-	consumed := func() int { // upper estimate of numbers consumed so far
-		n := 0
-		for _, w := range ws {
-			for i := range w.recs {
-				if w.recs[i].flag != fNN {
-					n++
-				}
-			}
+	wrapAt := map[int]bool{}
+	if r.Chance(0.5) {
+		for k := r.Range(1, 3); k > 0; k-- {
+			wrapAt[r.Intn(epochs)] = true
 		}
-		return n
 	}
 	straddled := 0
 	for ep := 0; ep < epochs; ep++ {
@@ -1546,14 +1714,12 @@ func runShort(c *vf.Case, epochs int) {
 			quota[i] = r.Pick(1, 2, 5, 40, r.Range(1, 40), r.Range(1, 40))
 			tot += quota[i]
 		}
-		if ep == wrapAt {
-			// bring the counter to just below 2^16 so that this history crosses it
-			left := 65536 - consumed()%65536
-			back := r.Range(1, tot)
-			if left > back {
-				e.sequential(seq, left-back)
+		if wrapAt[ep] {
+			// bring the counter (quiescent, cheap, un-recorded) to just below 2^16 so that
+			// this history crosses the wrap
+			if e.seek(ws, uint16(65536-r.Range(1, tot))) {
+				straddled++
 			}
-			straddled++
 		}
 		mark := make([]int, len(ws))
 		for i, w := range ws {
@@ -1577,5 +1743,49 @@ func runShort(c *vf.Case, epochs int) {
 			e.sequential(seq, r.Range(1, 50))
 		}
 	}
-	e.finish("short", ws, gather(ws), icpt, false, map[string]any{"porcupine_histories": epochs, "histories_straddling_wrap": straddled})
+	e.finish("short", ws, icpt, false, map[string]any{"porcupine_histories": epochs, "histories_straddling_wrap": straddled})
+}
+
+// runStorm aims the contention at the 16-bit wrap itself: the instance is fast-forwarded
+// (quiescent) to a few numbers below 2^16, then 2..16 writers are released together from a
+// spin barrier with a handful of pre-drawn writes each, so that the writes that take
+// 65535, 0, 1 ... overlap. Each round is a monitored run of its own.
+func runStorm(c *vf.Case, rounds int) {
+	r := c.R
+	o := opts{nStreams: r.Range(1, 4), nWriters: r.Pick(2, 3, 4, 4, 8, 16), maxPayload: 64, smallPayloads: true, tmplPerStream: r.Range(2, 5)}
+	e, ws, icpt := newEnv(c, r, o)
+	if e == nil {
+		return
+	}
+	light := r.Chance(0.7) // no yields, no wire check: as much of each write as possible is library code
+	if !light {
+		e.wireEvery = 1
+		setYields(e, r, false)
+		e.pHold = 0
+	}
+	seq := ws[len(ws)-1]
+	for k := 0; k < rounds; k++ {
+		g := o.nWriters
+		if r.Chance(0.3) {
+			g = r.Range(2, o.nWriters)
+		}
+		preps := make([][]*prepared, g)
+		tot := 0
+		for i := 0; i < g; i++ {
+			n := r.Pick(1, 2, 3, 6, r.Range(1, 10))
+			tot += n
+			for j := 0; j < n; j++ {
+				preps[i] = append(preps[i], ws[i].prepare(e, true, light))
+			}
+		}
+		// the burst starts d numbers below the wrap (one of them is the anchor)
+		d := r.Pick(1, 2, r.Range(1, g+1), r.Range(1, tot))
+		if !e.seek(ws, uint16(65536-d)) {
+			continue
+		}
+		e.sequential(seq, 1)
+		e.burst(ws[:g], preps)
+		e.sequential(seq, 1)
+	}
+	e.finish("storm", ws, icpt, true, map[string]any{"rounds": rounds})
 }
